@@ -2,12 +2,14 @@
 prop_mod!(mpc, "mpc.rs");
 prop_mod!(c01, "c01.rs");
 prop_mod!(c02, "c02.rs");
+prop_mod!(c03, "c03.rs");
 prop_mod!(c08, "c08.rs");
 
 fn dispatch(env: &common::Env) -> (&'static str, Vec<common::Sub>) {
     match env.prop.as_str() {
         "C01" => (c01::LEVEL, c01::subs(env)),
         "C02" => (c02::LEVEL, c02::subs(env)),
+        "C03" => (c03::LEVEL, c03::subs(env)),
         "C08" => (c08::LEVEL, c08::subs(env)),
         other => panic!("no harness for property {other} in this build"),
     }
